@@ -20,11 +20,30 @@ def free_port():
 
 
 class Tacd:
-    def __init__(self, workdir, domain, ext, release=False, listener="tcp", source="flag", key_type=None, digest=None):
+    def __init__(self, workdir, domain, ext, release=False, listener="tcp", source="flag", key_type=None, digest=None, nofile=None):
+        self.nofile = nofile
         self.dir = workdir
         os.makedirs(workdir, exist_ok=True)
         self.release = release
         self.listener = listener
+        self.domain, self.ext, self.source, self.key_type, self.digest = domain, ext, source, key_type, digest
+        # another process can take the port between free_port() and tacd's bind (many checks run side by side):
+        # that is the harness's problem, never tacd's - try again elsewhere, and give up as a tool error
+        for attempt in range(6):
+            self._launch()
+            if self.started or self.listener != "tcp":
+                break
+            err = open(os.path.join(self.dir, "tacd.stderr"), "rb").read().decode("utf-8", "replace")
+            if "in use" not in err.lower():
+                break
+            self.stop()
+            if attempt == 5:
+                from common import ToolError
+                raise ToolError("could not find a free port for tacd (6 attempts): %s" % err[-300:])
+
+    def _launch(self):
+        workdir, domain, ext, source, key_type, digest, listener, release = \
+            self.dir, self.domain, self.ext, self.source, self.key_type, self.digest, self.listener, self.release
         if listener == "tcp":
             self.port = free_port()
             self.addr = "127.0.0.1:%d" % self.port
@@ -49,7 +68,13 @@ class Tacd:
         if digest:
             cmd += ["--crt-digest", digest]
         self.errf = open(os.path.join(workdir, "tacd.stderr"), "wb")
-        self.p = subprocess.Popen(cmd, stdin=subprocess.PIPE if stdin is not None else subprocess.DEVNULL, stdout=subprocess.DEVNULL, stderr=self.errf)
+        pre = None
+        if self.nofile:
+            import resource
+            n = self.nofile
+            pre = lambda: resource.setrlimit(resource.RLIMIT_NOFILE, (n, n))      # noqa: E731
+        self.p = subprocess.Popen(cmd, stdin=subprocess.PIPE if stdin is not None else subprocess.DEVNULL, stdout=subprocess.DEVNULL, stderr=self.errf,
+                                  preexec_fn=pre)
         if stdin is not None:
             self.p.stdin.write(stdin)
             self.p.stdin.close()
@@ -184,6 +209,21 @@ class Tacd:
                         break
                 time.sleep(0.1)
                 self._stalled = socks      # kept open while the next validation is made
+            elif kind == "fd_exhaustion":
+                # more idle connections at once than the process has descriptors for: accept() fails (EMFILE) until they go away
+                socks = []
+                for _ in range((self.nofile or 1024) + 40):
+                    try:
+                        socks.append(self._connect(1))
+                    except OSError:
+                        break
+                time.sleep(0.5)
+                for x in socks:
+                    try:
+                        x.close()
+                    except OSError:
+                        pass
+                time.sleep(0.5)
             return True
         except OSError:
             return False
